@@ -32,5 +32,6 @@ CID_GROUPS = ["date", "type", "respin"]
 
 # C12 module uids ------------------------------------------------------------------------------------------------------
 UID_PART = r"[^:/\n]+"
-I_UID = r"(?P<module_name>%s):(?P<stream>%s)(:(?P<version>%s))?(:(?P<context>%s))?" % (UID_PART, UID_PART, UID_PART, UID_PART)
+# NAME:STREAM[:VERSION[:CONTEXT]] -- a context only after a version
+I_UID = r"(?P<module_name>%s):(?P<stream>%s)(:(?P<version>%s)(:(?P<context>%s))?)?" % (UID_PART, UID_PART, UID_PART, UID_PART)
 UID_GROUPS = ["module_name", "stream", "version", "context"]
